@@ -163,6 +163,17 @@ def related_flat(draw, a, kb, recipe):
     if recipe == "free":
         return draw(free_flat(kb))
     # ---------------- b is a point
+    if kb == "P" and recipe == "hash-quirk":
+        # a different point that differs only by -1 <-> -2 in one coordinate (every rounded-float hash collides)
+        p = list(a[1])
+        i = draw(st.integers(0, 2))
+        lo, hi = draw(st.sampled_from(((F(-1), F(-2)), (F(-2), F(-1)))))
+        for j in range(3):
+            if j != i and draw(st.booleans()):
+                p[j] = F(draw(st.sampled_from((0, 1, 0))))
+        q = list(p)
+        p[i], q[i] = lo, hi
+        return ("P", tuple(q)), tuple(p)
     if kb == "P":
         if recipe == "on":
             return ("P", draw(point_on(a)))
@@ -329,6 +340,8 @@ def related_flat(draw, a, kb, recipe):
 
 def flat_recipes(ka, kb):
     one = ("L", "H", "S")
+    if kb == "P" and ka == "P":
+        return ("on", "off", "free", "hash-quirk")
     if kb == "P":
         return ("on", "off", "free")
     if ka == "P":
@@ -355,6 +368,9 @@ def flat_recipes(ka, kb):
 def flat_pair(draw, ka, kb, recipe):
     a = draw(free_flat(ka))
     b = draw(related_flat(a, kb, recipe))
+    if recipe == "hash-quirk":
+        b, pa = b
+        a = ("P", pa)
     return (a, b)
 
 
